@@ -3,3 +3,5 @@ import GfaGen.Geometry
 import GfaGen.Regexes
 import GfaGen.Multiply
 import GfaGen.Seq
+import GfaGen.Tags
+import GfaGen.Clone
